@@ -15,6 +15,7 @@ Anything outside the listed statement / expression forms is refused (TieBroken).
 import ast
 
 from .pyexpr import TieBroken, find_class, find_func, strip_doc, sha
+from .normalize import parse_file, parse as norm_parse
 
 SRC_MULTI = 'bobocep/cep/action/common/multi.py'
 SRC_HANDLER = 'bobocep/cep/action/handler.py'
@@ -59,8 +60,7 @@ def _loop(stmts, ind):
 
 
 def _multi(repo):
-    src = (repo / SRC_MULTI).read_text()
-    tree = ast.parse(src)
+    src, tree = parse_file(repo, SRC_MULTI)
     cls = find_class(tree, 'BoboActionMultiSequential')
     init = [ast.unparse(s) for s in strip_doc(find_func(cls, '__init__').body)]
     if 'self._actions: List[BoboAction] = actions' not in init or 'self._stop_on_fail: bool = stop_on_fail' not in init:
@@ -114,14 +114,13 @@ def _record(call, ctor, fields, lean_names, exprs, where):
 PUT_BLOCKING = "if not self._queue.full():\n    self._queue.put(hres)\nelse:\n    raise BoboActionHandlerError(_EXC_QUEUE_FULL.format(self._max_size))"
 PUT_POOL = "if not queue.full():\n    queue.put(hres)\nelse:\n    raise BoboActionHandlerError(_EXC_QUEUE_FULL.format(max_size))"
 EXEC_PLAIN = "action_ret: Tuple[bool, Any] = action.execute(event)"
-EXEC_TRY = "try:\n    action_ret: Tuple[bool, Any] = action.execute(event)\nexcept (Exception,) as e:\n    logging.error(e)\n    raise e"
+EXEC_TRY = "try:\n    action_ret: Tuple[bool, Any] = action.execute(event)\nexcept (Exception,) as e:\n    raise e"
 SUBMIT = "return self._pool.starmap_async(_pool_execute_action, [(self._queue, action, event, self._max_size)])"
 SIZE_TEST = "if self._max_size > 0 and self._queue.qsize() >= self._max_size:\n    raise BoboActionHandlerError(_EXC_QUEUE_FULL.format(self._max_size))"
 
 
 def _handler(repo):
-    src = (repo / SRC_HANDLER).read_text()
-    tree = ast.parse(src)
+    src, tree = parse_file(repo, SRC_HANDLER)
     frags = {}
     # the response tuple
     nt = find_class(tree, 'BoboHandlerResponse')
@@ -166,7 +165,7 @@ def _handler(repo):
         frags[SRC_HANDLER + f'::{cname}._execute_action'] = sha(ast.get_source_segment(src, fe))
     # get_handler_response: FIFO get
     g = find_func(find_class(tree, 'BoboActionHandler'), 'get_handler_response')
-    want = ["with self._lock:\n    queue = self._get_queue()\n    if not queue.empty():\n        return queue.get_nowait()\n    return None"]
+    want = ["with self._lock:\n    queue = self._get_queue()\n    if not queue.empty():\n        return queue.get_nowait()\n    return"]
     if [ast.unparse(s) for s in strip_doc(g.body)] != want:
         raise TieBroken("BoboActionHandler.get_handler_response: body changed")
     lean = f"""def respondBlocking {{δ : Type}} (action : Action δ) (event : CEv) : Resp δ :=
@@ -190,8 +189,7 @@ AE_EXPR = {'self._gen_event_id.generate()': 'id', 'self._gen_timestamp.generate(
 
 
 def _forwarder(repo):
-    src = (repo / SRC_FWD).read_text()
-    tree = ast.parse(src)
+    src, tree = parse_file(repo, SRC_FWD)
     fn = find_func(find_class(tree, 'BoboForwarder'), '_update_responses')
     b = strip_doc(fn.body)
     if len(b) != 3 or ast.unparse(b[0]) != "hres: Optional[BoboHandlerResponse] = self._handler.get_handler_response()" \
